@@ -67,6 +67,28 @@ func (l *PipeListener) Dial() *rt.Conn {
 	return c
 }
 
+// DialWS is Dial for the WebSocket transport: a real opening handshake over a fresh
+// virtual connection; the server-side transport is queued for Accept, the client-side
+// transport and its raw connection are returned.
+func (l *PipeListener) DialWS() (lime.Transport, *rt.Conn) {
+	cws, sws, c, s := WSConns(l.Cap)
+	l.Servers = append(l.Servers, s)
+	l.Clients = append(l.Clients, c)
+	t := lime.NewWebsocketTransportFromConn(sws, false)
+	l.Transports = append(l.Transports, t)
+	l.ch <- t
+	return lime.NewWebsocketTransportFromConn(cws, false), c
+}
+
+// DialKind dials a client transport of the given kind ("tcp" or "ws") through the listener.
+func (l *PipeListener) DialKind(kind string) (lime.Transport, *rt.Conn) {
+	if kind == "ws" {
+		return l.DialWS()
+	}
+	c := l.Dial()
+	return lime.NewTCPTransportFromConn(c, nil, false), c
+}
+
 type PipeAddr string
 
 func (PipeAddr) Network() string  { return "pipe" }
